@@ -591,6 +591,118 @@ Proof.
   destruct Ho as [-> | [-> | [-> | [-> | [i ->]]]]]; reflexivity.
 Qed.
 
+(* ---------- which error InsertOperation returns (the code checks from, then length, then opIndex) ---------- *)
+Lemma insert_error_kind_lemma : forall ops k from len idx,
+  (insert_operation ops k from len idx = Err ErrFrom <-> ~ (0 <= from <= 31))
+  /\ (insert_operation ops k from len idx = Err ErrLength <-> 0 <= from <= 31 /\ ~ (0 <= len <= 32 - from))
+  /\ (insert_operation ops k from len idx = Err ErrOpIndex
+      <-> 0 <= from <= 31 /\ 0 <= len <= 32 - from /\ ~ (0 <= idx <= Z.of_nat (length ops))).
+Proof.
+  intros ops k from len idx. unfold insert_operation.
+  destruct ((from <? 0) || (from >? 31)) eqn:H1.
+  { repeat split; intros; try discriminate; try lia; try reflexivity. }
+  destruct ((len <? 0) || (len >? 32 - from)) eqn:H2.
+  { repeat split; intros; try discriminate; try lia; try reflexivity. }
+  destruct ((idx <? 0) || (idx >? Z.of_nat (length ops))) eqn:H3.
+  { repeat split; intros; try discriminate; try lia; try reflexivity. }
+  repeat split; intros; try discriminate; lia.
+Qed.
+
+(* ---------- reachable worlds: an invariant, so that the statements are about states the library
+   can be brought into and not about arbitrary records ---------- *)
+Inductive wreach : world -> Prop :=
+| reach_init : forall mid nid sib n2 big st2 pool, wreach (init_world mid nid sib n2 big st2 pool)
+| reach_step : forall w o, wreach w -> wreach (wstep w o).
+
+Definition winv (w : world) : Prop :=
+  (w_cur w < length (w_builders w))%nat
+  /\ in32 (w_id w) /\ in32 (w_prio w) /\ in32 (w_static w) /\ in32 (w_node_id w)
+  /\ (w_has_static w = true -> w_static w = w_id w)
+  /\ (w_has_static w = false -> w_static w = 0)
+  /\ (w_big w = true -> w_on_bus w = false).
+
+Lemma set_nth_length : forall (A : Type) i (v : A) l, length (set_nth i v l) = length l.
+Proof. intros A i v l. revert i. induction l as [|x r IH]; intros [|i]; cbn [set_nth length]; try reflexivity. f_equal. apply IH. Qed.
+
+Lemma in32_0 : in32 0.
+Proof. unfold in32. lia. Qed.
+
+Lemma winv_init : forall mid nid sib n2 big st2 pool, winv (init_world mid nid sib n2 big st2 pool).
+Proof.
+  intros. unfold winv, init_world. cbn [w_cur w_builders w_id w_prio w_static w_node_id w_has_static w_big w_on_bus length].
+  repeat split; try apply u32_in32; try apply in32_0; try lia; try discriminate; try reflexivity.
+Qed.
+
+Ltac winv_fin :=
+  repeat split; intros; try assumption; try apply u32_in32; try apply in32_0; try reflexivity;
+  try discriminate; try (unfold in32 in *; lia); auto.
+
+Lemma winv_step : forall w o, winv w -> winv (wstep w o).
+Proof.
+  intros w o Hinv. unfold wstep. destruct (accepted w o) eqn:Ha; [|exact Hinv].
+  destruct Hinv as [Hc [Hi [Hp [Hs [Hn [Hs1 [Hs0 Hb]]]]]]].
+  destruct o; cbn [wapply];
+    unfold winv; cbn [w_cur w_builders w_id w_prio w_static w_node_id w_has_static w_big w_on_bus
+                      upd_msg upd_links upd_node upd_builders upd_big];
+    try (winv_fin; fail).
+  - (* WBusAdd: refused when the oversized message is there *)
+    winv_fin. cbn [accepted] in Ha. match goal with Hbig : w_big w = true |- _ => rewrite Hbig in Ha end.
+    cbn [negb] in Ha. rewrite andb_false_r in Ha. cbn [andb] in Ha. discriminate.
+  - (* WBigAdd: refused on a bus *)
+    winv_fin. cbn [accepted] in Ha. destruct (w_on_bus w); [|reflexivity].
+    cbn [negb] in Ha. rewrite andb_false_r in Ha. cbn [andb] in Ha. discriminate.
+  - (* WSetBuilder *) cbn [accepted] in Ha. apply Nat.ltb_lt in Ha. winv_fin.
+  - (* WSetBuilderNil *) winv_fin. rewrite app_length. cbn [length]. lia.
+  - (* WEdit *) destruct (apply_edit (nth i (w_builders w) []) e) as [b'|]; [|winv_fin].
+    cbn [w_cur w_builders w_id w_prio w_static w_node_id w_has_static w_big w_on_bus
+         upd_msg upd_links upd_node upd_builders upd_big].
+    winv_fin. rewrite set_nth_length. exact Hc.
+Qed.
+
+Lemma wreach_inv_lemma : forall w, wreach w -> winv w.
+Proof. intros w H. induction H; [apply winv_init | apply winv_step; assumption]. Qed.
+
+(* on reachable worlds the CAN-ID is always a uint32 ... *)
+Lemma reach_can_id_in32_lemma : forall w, wreach w -> in32 (world_can_id w).
+Proof.
+  intros w H. destruct (wreach_inv_lemma w H) as [_ [Hi [_ [Hs _]]]]. rewrite world_cases_lemma.
+  destruct (w_has_static w); [exact Hs|].
+  destruct (w_attached w && w_on_bus w); [apply calculate_range_lemma | exact Hi].
+Qed.
+
+(* ... a static CAN-ID is also the message id (SetStaticCANID stores it in both; UpdateID clears it) ... *)
+Lemma reach_static_is_id_lemma : forall w, wreach w -> w_has_static w = true -> world_can_id w = w_id w.
+Proof.
+  intros w H Hs. destruct (wreach_inv_lemma w H) as [_ [_ [_ [_ [_ [H1 _]]]]]].
+  rewrite world_cases_lemma, Hs. apply H1. exact Hs.
+Qed.
+
+(* ... and the bus always has a builder of the pool: the `nth ... []` default is never used *)
+Lemma reach_builder_defined_lemma : forall w, wreach w ->
+  exists ops, nth_error (w_builders w) (w_cur w) = Some ops
+    /\ (w_has_static w = false -> w_attached w = true -> w_on_bus w = true ->
+        world_can_id w = calculate ops (w_prio w) (w_id w) (w_node_id w)).
+Proof.
+  intros w H. destruct (wreach_inv_lemma w H) as [Hc _].
+  destruct (nth_error (w_builders w) (w_cur w)) as [ops|] eqn:E.
+  - exists ops. split; [reflexivity|]. intros Hs Ha Hb. rewrite world_cases_lemma, Hs, Ha, Hb. cbn [andb].
+    rewrite (nth_error_nth _ _ _ E). reflexivity.
+  - apply nth_error_None in E. lia.
+Qed.
+
+(* an oversized message and the bus exclude each other in every reachable world *)
+Lemma reach_big_off_bus_lemma : forall w, wreach w -> w_big w = true -> w_on_bus w = false.
+Proof. intros w H. destruct (wreach_inv_lemma w H) as [_ [_ [_ [_ [_ [_ [_ Hb]]]]]]]. exact Hb. Qed.
+
+Lemma world_nil_builder_lemma : forall w,
+  w_has_static w = false -> w_attached w = true -> w_on_bus w = true ->
+  world_can_id (wstep w WSetBuilderNil) = calculate default_ops (w_prio w) (w_id w) (w_node_id w).
+Proof.
+  intros w Hs Ha Hb. unfold wstep. cbn [accepted wapply]. rewrite world_cases_lemma.
+  cbn [upd_builders w_has_static w_attached w_on_bus w_cur w_builders w_prio w_id w_node_id].
+  rewrite Hs, Ha, Hb. cbn [andb]. rewrite app_nth2 by lia. rewrite Nat.sub_diag. reflexivity.
+Qed.
+
 (* ---------- hypotheses are satisfiable (non-trivial witnesses) ---------- *)
 Example legal_witness : legal 31 1 /\ legal 0 32 /\ legal 4 7 /\ value_kind KMessageID /\ in32 4294967295.
 Proof. unfold legal, value_kind, in32. repeat split; try lia; auto. Qed.
